@@ -247,6 +247,20 @@ func checkGatePrimitive(c *report.Ctx) {
 		c.Check("R-GUARD", an.FuncName(await)+"/wait-in-loop", "Cond.Wait is inside a loop (the predicate is re-tested after every wake-up)", an.InLoop(wcall), an.InstrPos(wcall), 1, "in CFG cycle: %v", an.InLoop(wcall))
 		c.Check("R-GUARD", an.FuncName(await)+"/wait-guarded-by-arrived-ne-count", "Cond.Wait is reached only while arrived != count", facts.Holds(b, neqArrCnt), an.InstrPos(wcall), len(facts.At(b)), "facts at wait: %s", factsString(facts.At(b)))
 		c.Check("R-GUARD", an.FuncName(await)+"/wait-guarded-by-not-canceled", "Cond.Wait is reached only while !canceled", facts.Holds(b, notCanceled), an.InstrPos(wcall), len(facts.At(b)), "facts at wait: %s", factsString(facts.At(b)))
+		// the predicate tested before going (back) to sleep is read from the latch after the wake-up: the loads of
+		// arrived, count and canceled behind the guarding facts are themselves inside the wait loop (a value read once
+		// before the loop is stale after SetCount/Clear/WalkThrough ran while this waiter was parked)
+		fresh := func(v ssa.Value) bool {
+			in, ok := an.Strip(v, true).(ssa.Instruction)
+			return ok && an.InLoop(in)
+		}
+		freshNeq := func(f an.Fact) bool {
+			r, ok := an.AsRel(f)
+			return ok && neqArrCnt(f) && fresh(r.X) && fresh(r.Y)
+		}
+		freshCanc := func(f an.Fact) bool { return notCanceled(f) && fresh(f.Cond) }
+		c.Check("R-GUARD", an.FuncName(await)+"/wait-predicate-reread-after-wakeup", "the arrived/count/canceled values tested before each Cond.Wait are loaded inside the wait loop (re-read after every wake-up, not cached before it)",
+			facts.Holds(b, freshNeq) && facts.Holds(b, freshCanc), an.InstrPos(wcall), len(facts.At(b)), "fresh arrived!=count: %v, fresh !canceled: %v", facts.Holds(b, freshNeq), facts.Holds(b, freshCanc))
 	}
 	// the loop test dominates every return
 	var loopIf ssa.Instruction
